@@ -165,6 +165,8 @@ mod deadline_support;
 #[cfg(feature = "text")]
 mod text;
 mod types;
+#[cfg(similar_verif)]
+pub mod verif;
 
 pub use self::common::*;
 #[cfg(feature = "text")]
